@@ -549,10 +549,11 @@ def find_assign(func: ast.AST, name: str) -> List[ast.AST]:
         if isinstance(n, ast.Assign):
             for t in n.targets:
                 if isinstance(t, ast.Name) and t.id == name:
-                    out.append(n.value)
+                    out.append((n.lineno, n.col_offset, n.value))
         elif isinstance(n, ast.AnnAssign) and isinstance(n.target, ast.Name) and n.target.id == name and n.value is not None:
-            out.append(n.value)
-    return out
+            out.append((n.lineno, n.col_offset, n.value))
+    out.sort(key=lambda t: (t[0], t[1]))  # source order: [0] is the first, [-1] the last assignment
+    return [v for _, _, v in out]
 
 
 def stmt_key(node) -> str:
